@@ -367,7 +367,8 @@ def apply(cur_tree, ref_tree, prepare):
         for n in ast.walk(t):
             if isinstance(n, ast.ImportFrom) and any(a.name == '*' for a in n.names) or isinstance(n, ast.Name) and n.id in ('globals', '__builtins__', 'exec', 'eval'):
                 return []       # names of this module may mean anything (star import, globals() edited by hand)
-            if isinstance(n, ast.Name) and n.id in ('setattr', 'getattr', 'hasattr', 'dir', 'vars', 'delattr') or isinstance(n, ast.Attribute) and n.attr == '__dict__':
+            if isinstance(n, ast.Name) and n.id in ('setattr', 'getattr', 'hasattr', 'dir', 'vars', 'delattr', 'methodcaller', 'attrgetter') \
+                    or isinstance(n, ast.Attribute) and n.attr in ('__dict__', 'methodcaller', 'attrgetter'):
                 dynamic = True  # attributes are bound / looked up by computed names: which function a name reaches is not decided
     _REBOUND[0] = frozenset(_rebound_names(cur_tree) | _rebound_names(ref_tree))
     cur = _owner_map(cur_tree)
@@ -380,8 +381,31 @@ def apply(cur_tree, ref_tree, prepare):
     if dynamic:
         new_names_h, gone_names_h = [], []
     else:
-        new_names_h = [q for q in new_names if refdefs.get(q.split('.')[-1], 0) == 0]
-        gone_names_h = [q for q in gone_names if refdefs.get(q.split('.')[-1], 0) <= 1 and (equiv.REPO_DEFINED[0] is None or q.split('.')[-1] not in equiv.REPO_DEFINED[0])]
+        import re as _re
+
+        def private(q, n_allowed):
+            nm = q.split('.')[-1]
+            if not _re.fullmatch(r'_[A-Za-z0-9]\w*', nm):
+                return False        # a public name, a protocol method (__next__, __missing__) or a mangled one: others may reach it
+            if refdefs.get(nm, 0) > n_allowed:
+                return False
+            # spelled in no other module of the package (as validated), nor in the modules of the base classes
+            me = None
+            for mn, src in reference_sources().items():
+                if _re.search(r'(?<![\w])' + _re.escape(nm) + r'(?![\w])', src):
+                    if me is None and (f'def {nm}(' in src):
+                        me = mn
+                    else:
+                        return False
+            return True
+        new_names_h = [q for q in new_names if private(q, 0)]
+        gone_names_h = [q for q in gone_names if private(q, 1) and (equiv.REPO_DEFINED[0] is None or q.split('.')[-1] not in equiv.REPO_DEFINED[0])]
+        # methods of a class with a base outside this module are not taken as helpers (the base may call them)
+        def plain_class(q, owners):
+            cls = owners[q][2]
+            return cls is None or all(isinstance(b, ast.Name) and b.id == 'object' for b in cls.bases)
+        new_names_h = [q for q in new_names_h if plain_class(q, cur)]
+        gone_names_h = [q for q in gone_names_h if plain_class(q, ref)]
     cur_consts = equiv.module_constants(cur_tree)
     ref_consts = equiv.module_constants(ref_tree)
     cur_props = equiv.module_properties(cur_tree)
@@ -412,8 +436,8 @@ def apply(cur_tree, ref_tree, prepare):
         if c1 is None or c2 is None or c1 != c2:
             continue
         decisions.append(q)
-    if not decisions:
-        return []
+    if not decisions or len(decisions) != len(changed):
+        return []       # a function changed in a way that is not a recognised refactoring: nothing of this module is read in reference spelling
     # --- (3) nothing reached from a gated reference body is a function that changed without being recognised
     unrecognised = {q.split('.')[-1] for q in changed if q not in decisions}
     by_bare = {}
@@ -466,6 +490,8 @@ def apply(cur_tree, ref_tree, prepare):
                 else:
                     rest_cur.append(g)
             rest_cur.extend(st.bases)
+            rest_cur.extend(st.decorator_list)
+            rest_cur.extend(k.value for k in st.keywords)
         else:
             rest_cur.append(st)
     rest_mentions = set()
